@@ -218,8 +218,12 @@ func encodeTop(vc *VC, fn *ssa.Function, d *Decl) []inputVar {
 		if j := strings.LastIndex(target, "#"); j >= 0 {
 			target = strings.TrimSpace(target[:j])
 		}
-		callee := vc.P.ResolveFunc(fn.Pkg.Pkg.Name(), target)
-		if callee == nil {
+		var rsig *types.Signature
+		if callee := vc.P.ResolveFunc(fnPkgName(fn), target); callee != nil {
+			rsig = callee.Signature
+		} else if sg := vc.P.anyIfaceMethodSig(target); sg != nil {
+			rsig = sg // a method of an interface (of any package): pkg.Iface.Method
+		} else {
 			panic(specErr("bind: unknown function " + target))
 		}
 		if fr.bindVals == nil {
@@ -227,10 +231,10 @@ func encodeTop(vc *VC, fn *ssa.Function, d *Decl) []inputVar {
 		}
 		for k, n := range strings.Split(c.Text[:i], ",") {
 			n = strings.TrimSpace(n)
-			if n == "_" || n == "" || k >= callee.Signature.Results().Len() {
+			if n == "_" || n == "" || k >= rsig.Results().Len() {
 				continue
 			}
-			rt := callee.Signature.Results().At(k).Type()
+			rt := rsig.Results().At(k).Type()
 			fr.bindVals[n] = sval{t: vc.freshConst("unbound_"+n, vc.sortOf(rt)), typ: rt}
 			fr.bindVals[n+"$called"] = sval{t: "false", typ: boolT}
 		}
@@ -586,4 +590,45 @@ func axiomAbstracts(P *Program, ax *Decl) []string {
 		}
 	}
 	return out
+}
+
+func fnPkgName(fn *ssa.Function) string {
+	for f := fn; f != nil; f = f.Parent() {
+		if f.Pkg != nil {
+			return f.Pkg.Pkg.Name()
+		}
+	}
+	return ""
+}
+
+// anyIfaceMethodSig: the signature of pkg.Iface.Method for an interface of any loaded package
+func (P *Program) anyIfaceMethodSig(key string) *types.Signature {
+	i := strings.LastIndex(key, ".")
+	if i < 0 {
+		return nil
+	}
+	j := strings.LastIndex(key[:i], ".")
+	if j < 0 {
+		return nil
+	}
+	pn, tn, mn := key[:j], key[j+1:i], key[i+1:]
+	for _, p := range P.Prog.AllPackages() {
+		if p.Pkg.Name() != pn && p.Pkg.Path() != pn {
+			continue
+		}
+		o := p.Pkg.Scope().Lookup(tn)
+		if o == nil {
+			continue
+		}
+		it, ok := o.Type().Underlying().(*types.Interface)
+		if !ok {
+			continue
+		}
+		for k := 0; k < it.NumMethods(); k++ {
+			if it.Method(k).Name() == mn {
+				return it.Method(k).Type().(*types.Signature)
+			}
+		}
+	}
+	return nil
 }
